@@ -588,7 +588,11 @@ void mmd_export_token_html(DString * out, const char * source, token * t, scratc
 			pad(out, 2, scratch);
 			print_const("<blockquote>\n");
 			scratch->padded = 2;
+			// Paragraphs inside a quote are not items of an enclosing tight list
+			temp_short = scratch->list_is_tight;
+			scratch->list_is_tight = false;
 			mmd_export_token_tree_html(out, source, t->child, scratch);
+			scratch->list_is_tight = temp_short;
 			pad(out, 1, scratch);
 			print_const("</blockquote>");
 			scratch->padded = 0;
